@@ -8,7 +8,8 @@
    The syntax check compile(code, '<string>', 'exec') is the oracle `chk`; theorems hold for every oracle. *)
 From Coq Require Import String Ascii List Bool Arith ZArith.
 Import ListNotations.
-Require Import PyBase PyStr Symbols Split SplitFacts Merge ParseEq ParseEqFacts ParseModel ParseModelFacts ParseModelExamples.
+Require Import PyBase PyStr Symbols Split SplitFacts SplitChunks SplitChunksFacts Merge ParseEq ParseEqFacts ParseModel ParseModelFacts ParseModelExamples
+               ParseContribFacts ParseContribExamples.
 Open Scope string_scope.
 
 Section C13.
@@ -62,6 +63,32 @@ Section C13.
     forall st, In st (fst (split_M s)) ->
       exists ss, parse_equation_M st = POk ss /\ forall c, In c (codes_of ss) -> chk c = ChkOk.
   Proof. exact (accepted_means_every_code_compiled chk s syms). Qed.
+
+  (* ---- "no statement is silently discarded: each one contributes exactly one equation or verbatim block" ----
+     model_chunks s = the buffers the splitting loop completes (lists of comment-stripped physical lines);
+     n_emitted = what build_model_definition emits.  For EVERY input string, oracle and check_syntax setting:
+     accepted + no fence left open + the three guards that exclude the kept findings (one name on each left-hand
+     side, not called as a function in its own statement; no name given an equation twice)  ==>
+     the script's lines are exactly the chunks in order, the statements are exactly the non-blank chunks, and the
+     built model has exactly one equation / verbatim block per statement. *)
+  Theorem C13_no_statement_discarded cs s out :
+    parse_model_M chk cs s = POk out ->
+    (forall st, In st (fst (split_M s)) ->
+       backticked st = true \/ exists terms y, parse_equation_terms st = Ret terms /\ lhs_guard y terms = true) ->
+    NoDup (emit_names (concat (stmt_symbols s))) ->
+    ends_in_open_fence s = false ->
+    model_lines s = concat (model_chunks s) /\
+    fst (split_M s) = map join_nl (filter nonblank_chunk (model_chunks s)) /\
+    n_emitted out = length (filter nonblank_chunk (model_chunks s)).
+  Proof. exact (no_statement_discarded chk cs s out). Qed.
+
+  (* the counting half alone (fences may be open): as many equations / blocks as statements were yielded *)
+  Theorem C13_every_statement_contributes cs s out :
+    parse_model_M chk cs s = POk out ->
+    (forall st, In st (fst (split_M s)) -> stmt_guard st) ->
+    NoDup (emit_names (concat (stmt_symbols s))) ->
+    n_emitted out = length (fst (split_M s)).
+  Proof. exact (every_statement_contributes chk cs s out). Qed.
 End C13.
 Print Assumptions C13_every_exception_classified.
 Print Assumptions C13_own_errors_only.
@@ -69,6 +96,54 @@ Print Assumptions C13_chk_outcomes_propagate.
 Print Assumptions C13_other_exn_only_from_oracle.
 Print Assumptions C13_nocheck_ignores_oracle.
 Print Assumptions C13_accepted_means_every_code_compiled.
+
+Print Assumptions C13_no_statement_discarded.
+Print Assumptions C13_every_statement_contributes.
+
+(* one statement, taken alone: a verbatim statement or a guarded equation yields exactly one emitting symbol *)
+Theorem C13_statement_emits_one st syms :
+  is_blank st = false -> stmt_guard st -> parse_equation_M st = POk syms ->
+  n_emitted syms = 1 /\ forall v, In v syms -> sname v <> None -> tidy v.
+Proof. exact (statement_emits_one st syms). Qed.
+Print Assumptions C13_statement_emits_one.
+
+(* the splitting loop, for EVERY input string on which it raises nothing: the lines are the completed chunks followed
+   by what is still buffered; the statements are the non-blank chunks; the bracket counter ends at zero; and lines can
+   be left in the buffer only behind a fence line that was never closed (finding #24 is the only way to lose a line) *)
+Theorem C13_accepted_lines_partition s ys :
+  split_M s = (ys, None) ->
+  exists stf, final_state s0 (model_lines s) = Some stf /\ unmatched stf = 0 /\
+    model_lines s = (concat (model_chunks s) ++ rev (buffer stf))%list /\
+    ys = map join_nl (filter nonblank_chunk (model_chunks s)) /\
+    (buffer stf = [] \/
+     (complete stf = false /\ exists l b, rev (buffer stf) = l :: b /\ startswith "```" l = true)).
+Proof. exact (accepted_lines_partition s ys). Qed.
+Print Assumptions C13_accepted_lines_partition.
+
+(* a chunk that is not turned into a statement is a single blank or comment-only line *)
+Theorem C13_dropped_chunk_is_one_blank_line s ch :
+  In ch (model_chunks s) -> nonblank_chunk ch = false -> exists l, ch = [l] /\ is_blank l = true.
+Proof. exact (model_blank_chunk_single s ch). Qed.
+Print Assumptions C13_dropped_chunk_is_one_blank_line.
+
+(* the splitting loop raises nothing but ParserError / IndentationError, and every statement it yields is non-blank
+   and matches equation_re *)
+Theorem C13_split_errors_own s ys e : split_M s = (ys, Some e) -> e = ParserError \/ e = IndentationError.
+Proof. exact (split_M_err s ys e). Qed.
+Print Assumptions C13_split_errors_own.
+Theorem C13_split_statements_valid s ys oe x : split_M s = (ys, oe) -> In x ys -> stmt_ok x = true /\ is_blank x = false.
+Proof. exact (split_M_stmts s ys oe x). Qed.
+Print Assumptions C13_split_statements_valid.
+
+(* the hypotheses of C13_no_statement_discarded hold on an ordinary script (comment, blank line, fenced block,
+   bracketed continuation) *)
+Theorem C13_no_statement_discarded_satisfiable :
+  (exists out, parse_model_nocheck ordinary = POk out /\ n_emitted out = 3) /\
+  (forall st, In st (fst (split_M ordinary)) -> stmt_guard st) /\
+  NoDup (emit_names (concat (stmt_symbols ordinary))) /\
+  ends_in_open_fence ordinary = false.
+Proof. exact ordinary_hyps. Qed.
+Print Assumptions C13_no_statement_discarded_satisfiable.
 
 (* the full statement "only the parser's own errors" is FALSE of the faithful model (new finding) *)
 Theorem C13_own_errors_refuted :
